@@ -247,6 +247,8 @@ class Check:
             c['replay'] = {'reproduced': reproduced, 'detail': detail}
             c['count'] = len(cs)
             if not reproduced:
+                if os.environ.get('VERIF_SHOW_CAND'):
+                    log('CANDIDATE %s' % json.dumps(jsonable(c))[:3000])
                 self.inconclusive.append('counterexample for %s did not reproduce natively (%s): %s' % (role, detail, c.get('what')))
                 continue
             k = match_known(self.known, self.pid, role)
